@@ -514,7 +514,7 @@ class JitConformance(_Base):
 
 
 def build(tier):
-    fin = [0.4, 1.0, 1.4, 1.5, 2.0, 2.5]
+    fin = [0.0, 0.4, 1.0, 1.4, 1.5, 2.0, 2.5]          # 0.0: only the targets themselves are within reach
     big = [3.7, float("inf")]        # >= extent of the 3x4 unit raster (sqrt(13) = 3.61): single-block fallback
     maxt = 2 if tier == "quick" else 3
     sp = [
